@@ -188,7 +188,7 @@ def reasm_after(out: Outcome):
     return reasm_snapshot(out.run, Ref(ws))
 
 
-def frame_dims(I: Interp, out: Outcome, skip: Value = None) -> Optional[Dict[str, Dim]]:
+def frame_dims(I: Interp, out: Outcome, skip: Value = None, nonminimal_marker: bool = False) -> Optional[Dict[str, Dim]]:
     """Region of the frame under analysis on this path, read off the ABNF object handed to validate()."""
     run = out.run
     fr = None
@@ -197,7 +197,14 @@ def frame_dims(I: Interp, out: Outcome, skip: Value = None) -> Optional[Dict[str
             fr = e.args[0]
             skip = e.args[1] if len(e.args) > 1 else e.kwargs.get("skip_utf8_validation", skip)
     if fr is None:
-        return None
+        # validate() was not reached under that name (split into helpers, inlined, or the frame was refused on its header alone):
+        # the frame is the last ABNF object the path constructed, if any
+        for e in out.effects:
+            if e.name == "enter:_abnf:ABNF.__init__" and e.args and isinstance(e.args[0], Ref) and "opcode" in run.cell(e.args[0]).fields:
+                fr = e.args[0]
+    if fr is None:
+        d = early_frame_dims(I, out, skip)
+        return None if (d == "nonminimal" and not nonminimal_marker) else d
     f = run.cell(fr).fields
     from . import transfer
     dims = {}
@@ -212,6 +219,69 @@ def frame_dims(I: Interp, out: Outcome, skip: Value = None) -> Optional[Dict[str
     # the *configured* option (what the user asked for), not what happens to be handed to validate()
     cfgskip = run.memo.get("@cfg_skip")
     dims["skip"] = dim_of(run, cfgskip if cfgskip is not None else (skip if skip is not None else C(0)), (0, 1))
+    return dims
+
+
+def bitfield_dim(run: Run, byte_term: Value, mask: int, shift: int, rng) -> Dim:
+    """What the path knows about the field (byte & mask) >> shift, whatever spelling of that field the code tested."""
+    from .bits import field_bits
+    lo, hi = rng
+    excl = set()
+    for k, fk in run.facts.items():
+        t = run.fact_terms.get(k)
+        if t is None or isinstance(t, C):
+            continue
+        fb = field_bits(t)
+        if fb is None or not hasattr(fb[0], "key") or fb[0].key() != byte_term.key() or fb[1] != mask or fb[2] != shift:
+            continue
+        d = dim_of(run, t, rng)
+        lo, hi = max(lo, d.lo), min(hi, d.hi)
+        excl |= {x for x in fk.excl if isinstance(x, int)}
+        if fk.truth is True:
+            excl.add(0)
+        if fk.truth is False:
+            hi = min(hi, 0)
+    while lo in excl and lo < hi:
+        lo += 1
+    while hi in excl and hi > lo:
+        hi -= 1
+    return Dim(lo, hi)
+
+
+def early_frame_dims(I: Interp, out: Outcome, skip: Value = None) -> Optional[Dict[str, Dim]]:
+    """A path that refuses the frame BEFORE an ABNF object reaches validate() (a check on the header or on the decoded length):
+    the region of frames it stands for is read off the facts about the header bytes and the length term.  None when not even
+    the header was read (a transport-level failure)."""
+    run = out.run
+    reads = [e for e in out.effects if e.name == "recv_strict" and e.ret is not None]
+    if not reads or out.kind != "raise":
+        return None
+    from . import transfer
+    h16 = transfer.be16_of(run, reads[0].ret)
+    b1 = App("byte", (h16, C(1)), "int")
+    b2 = App("byte", (h16, C(0)), "int")
+    dims = {"fin": bitfield_dim(run, b1, 0x80, 7, (0, 1)), "rsv1": bitfield_dim(run, b1, 0x40, 6, (0, 1)),
+            "rsv2": bitfield_dim(run, b1, 0x20, 5, (0, 1)), "rsv3": bitfield_dim(run, b1, 0x10, 4, (0, 1)),
+            "opcode": bitfield_dim(run, b1, 0x0F, 0, (0, 15))}
+    l7 = bitfield_dim(run, b2, 0x7F, 0, (0, 127))
+    if l7.hi <= 125:
+        dims["len"] = Dim(l7.lo, l7.hi)
+    elif l7.lo == l7.hi and l7.lo in (126, 127) and len(reads) >= 2:
+        ext = App("beint", (reads[1].ret,), "int")
+        d = dim_of(run, ext, (0, 65535 if l7.lo == 126 else LEN_MAX))
+        # the tables speak of frames in the shortest encoding (RFC 6455 5.2 demands it of the sender): the part of this path that
+        # stands for longer-than-needed encodings is not judged
+        lo = max(d.lo, 126 if l7.lo == 126 else 65536)
+        if lo > d.hi:
+            return "nonminimal"
+        dims["len"] = Dim(lo, d.hi)
+    else:
+        dims["len"] = Dim(0, LEN_MAX)
+    dims["code"] = Dim(0, 65535)
+    dims["utf8ok"] = dim_of(run, Sym("utf8ok", "bool"), (0, 1))
+    cfgskip = run.memo.get("@cfg_skip")
+    dims["skip"] = dim_of(run, cfgskip if cfgskip is not None else (skip if skip is not None else C(0)), (0, 1))
+    run.memo["@early_reject"] = True
     return dims
 
 
